@@ -21,7 +21,7 @@ static struct model {
 } M;
 
 enum { E_OBSNEW, E_DUP_OLD, E_DUP_NEW, E_REOBS_LAST, E_OTHER, E_OTHER2, E_QUERY, E_QUERY_BR, E_QUERY_HI, E_RESET0, E_RESET1, E_DISC, E_QLT_ICON, E_QLT_NAME,
-       E_QLT_HWID, E_EMIT, E_BG1, E_BG2, E_DUP_KIND, E_NEV };     /* E_BG1/2 (only with --b 1): a neighbour's Hello heard on the responder's second / third interface */
+       E_QLT_HWID, E_EMIT, E_BG1, E_BG2, E_DUP_KIND, E_NEV };     /* E_BG1/2 (only with --b 1): a Probe for the second interface received on it / a neighbour's Hello heard on the third interface */
 static const char *ENAME[] = {"ObsNew", "ProbeDup(oldest)", "ProbeDup(newest)", "Probe again from the most recently recorded station", "ProbeForPEER", "TrainForPEER(eth dst OWN)", "Query(M1,seq=1)", "Query(M2 via BR,seq=0xFFFE)",
                               "Query(M1,seq=0x0203)", "Reset(tos0)", "Reset(tos1)", "Discover(M1)", "QueryLargeTlv(icon)", "QueryLargeTlv(name)", "QueryLargeTlv(hwid)", "Emit(1)",
                               "on interface 1: a neighbour's Hello", "on interface 2: a neighbour's Hello",
@@ -150,7 +150,8 @@ static void apply(int ev) {
         case E_QLT_HWID: { pev e = ev_qlt(0, ST_M1, ST_M1, 5, 0x13, 0); drv_linux(&e, 0); break; }
         case E_EMIT: { pev e = ev_emit1(0, ST_M1, ST_M1, 7, 1, 0, ST_S0, ST_PEER); drv_linux(&e, 0); break; }
         case E_DUP_KIND: flip_kind = 1; send_obs(newest(), 1); break;      /* same real source, Ethernet source and destination: recorded once */
-        case E_BG1: case E_BG2: { pev e = ev_hello(0, ST_PEER, 0x3412); drv_linux(&e, ev - E_BG1 + 1); break; }
+        case E_BG1: { pev e = ev_probe(0x04, 0, ST_S0, ST_S0, ST_OWN, ST_OWN); drv_linux(&e, 1); break; }      /* a Probe addressed to the SECOND interface's own address, received there: that interface's business only */
+        case E_BG2: { pev e = ev_hello(0, ST_PEER, 0x3412); drv_linux(&e, 2); break; }
     }
     int had_last = is_query && M.last_rec && has(M.last_rec - 1);
     if (is_query) { M.reobs = 0; drv_linux(&q, 0); if (mode == 7 || mode == 2) { int sup = vf_suppress; if (mode == 2) vf_suppress = 1; oracle_query(&q); vf_suppress = sup; } }
